@@ -6,18 +6,19 @@ section of `rate/limiter.go` is one atomic step; the ticker goroutine and the go
 counters for their lock acquisitions and the hand-over on the unbuffered `done` channel) and the executable scheduler
 `RL.exec`, which the driver `drv_c16` runs against the Go code and which only produces runs of `RL.Step`
 (`exec_is_run`).  `Reachable c s`: `s` is reachable from `rate.New(c, period)` by any interleaving of the steps — all
-trees (children may have larger caps than their parents), all request streams, `Close` at any point.  `SetCap` is not a
-step of `RL.Step` (DESIGN Appendix B).  `gsum p x s.glog` is the total amount granted in period `p` to limiter `x`
+trees (children may have larger caps than their parents), all request streams, `Close` and `SetCap` at any point.
+`SetCap` is a step of `RL.Step`; every theorem below holds with `SetCap` calls anywhere in the run, except the two cap
+bounds `granted_le_cap` / `granted_le_min_cap_of_chain`, which carry the hypothesis `s.setCaps = 0` — no `SetCap` so far
+(DESIGN Appendix B: `SetCap` mid-period is outside the stated quantifier).  `gsum p x s.glog` is the total amount granted in period `p` to limiter `x`
 and all its descendants, read off the log of grants. -/
 namespace C16
 open RL
 
 /-- the executable scheduler run by the driver only produces runs of the transition relation the theorems are about -/
-theorem exec_is_run (s : S) (op : Op) (h : ∀ l c, op ≠ .setCap l c) : Steps s (exec s op) := exec_steps s op h
+theorem exec_is_run (s : S) (op : Op) : Steps s (exec s op) := exec_steps s op
 
-/-- so every state the driver visits (without `SetCap`) is covered by the theorems below -/
-theorem run_reachable (c : Nat) (ops : List Op) (h : ∀ op ∈ ops, ∀ l k, op ≠ .setCap l k) :
-    Reachable c (run (init c) ops) := by
+/-- so every state the driver visits is covered by the theorems below -/
+theorem run_reachable (c : Nat) (ops : List Op) : Reachable c (run (init c) ops) := by
   unfold run
   generalize hs : init c = s
   have hr : Reachable c s := hs ▸ Reachable.init
@@ -27,17 +28,17 @@ theorem run_reachable (c : Nat) (ops : List Op) (h : ∀ op ∈ ops, ∀ l k, op
   | cons op ops ih =>
     simp only [List.foldl_cons]
     apply ih
-    · intro op' hop'; exact h op' (List.mem_cons_of_mem _ hop')
-    · exact hr.steps (exec_steps s op (h op List.mem_cons_self))
+    exact hr.steps (exec_steps s op)
 
 /-- **granted ≤ cap**: in every period `p` the total granted by a limiter together with all its descendants is at
     most its capacity -/
-theorem granted_le_cap (c : Nat) (s : S) (h : Reachable c s) (p x : Nat) : gsum p x s.glog ≤ s.cap x :=
-  gsum_le_cap h p x
+theorem granted_le_cap (c : Nat) (s : S) (h : Reachable c s) (hz : s.setCaps = 0) (p x : Nat) :
+    gsum p x s.glog ≤ s.cap x :=
+  gsum_le_cap h hz p x
 
 /-- … hence at most the cap of each of its ancestors: a child never consumes more than the smallest cap among
     itself and its ancestors (`capOf s l true` is `Cap(true)`) -/
-theorem granted_le_min_cap_of_chain (c : Nat) (s : S) (h : Reachable c s) (p l : Nat) :
+theorem granted_le_min_cap_of_chain (c : Nat) (s : S) (h : Reachable c s) (hz : s.setCaps = 0) (p l : Nat) :
     (∀ x ∈ s.chain l, gsum p l s.glog ≤ s.cap x) ∧ gsum p l s.glog ≤ capOf s l true := by
   have t := tree h
   have gi := grantInv h
@@ -60,10 +61,10 @@ theorem granted_le_min_cap_of_chain (c : Nat) (s : S) (h : Reachable c s) (p l :
         · simp only [hp, hm, and_false, if_false, true_and]; split <;> omega
       · simp only [hp, false_and, if_false]; omega
   have each : ∀ x ∈ s.chain l, gsum p l s.glog ≤ s.cap x :=
-    fun x hx => Nat.le_trans (mono x hx) (gsum_le_cap h p x)
+    fun x hx => Nat.le_trans (mono x hx) (gsum_le_cap h hz p x)
   refine ⟨each, ?_⟩
   simp only [capOf, if_true]
-  have own : gsum p l s.glog ≤ s.cap l := gsum_le_cap h p l
+  have own : gsum p l s.glog ≤ s.cap l := gsum_le_cap h hz p l
   generalize s.cap l = m at own
   generalize s.chain l = ch at each
   induction ch generalizing m with
@@ -246,6 +247,21 @@ theorem close_fails_pending (s : S) (r : Req) (hr : r ∈ s.waiting) :
     exact List.mem_append_left _ (service_closed _ _ _ _ _ _ r hr hc)
   · exact List.mem_append_left _ (List.mem_map.mpr ⟨r, hr, rfl⟩)
 
+/-- **lowered cap**: a request that is waiting when `SetCap` lowers its limiter's cap below its amount is answered
+    with the cap error by the next tick (and, by `answer_exactly_once`, only then) -/
+theorem queued_above_lowered_cap_fails_at_tick (s : S) (r : Req) (hr : r ∈ s.waiting) (ho : s.closed r.lim = false)
+    (hb : r.amt > s.cap r.lim) : (r.id, Ans.errCap) ∈ (doTickRuns s).answered :=
+  List.mem_append_left _ (service_toobig _ _ _ _ _ _ r hr ho hb)
+
+/-- `SetCap` itself never blocks and changes nothing but the capacity (and the call counter) -/
+theorem setCap_returns (c : Nat) (s : S) (h : Reachable c s) (l k : Nat) (hl : l < s.n) :
+    Step s (doSetCap s l k) ∧ exec s (.setCap l k) = doSetCap s l k ∧ (doSetCap s l k).cap l = k ∧
+    (doSetCap s l k).waiting = s.waiting ∧ (doSetCap s l k).used = s.used := by
+  have hlk : s.lockHeld = false := lockFree h
+  refine ⟨Step.setCap s l k hl hlk, ?_, ?_, rfl, rfl⟩
+  · simp [exec, hl, hlk]
+  · simp [doSetCap, upd]
+
 /-- after root `Close` has marked the tree every limiter is closed, and stays so -/
 theorem root_close_closes_all (c : Nat) (s : S) (h : Reachable c s) (hc : s.cpc ≠ .idle) (x : Nat) :
     s.closed x = true := allClosed h (Or.inl hc) x
@@ -288,7 +304,8 @@ theorem held_lock_would_deadlock (s : S) (h0 : s.lockHeld = true) (h1 : s.tpc = 
     although the child has room, is served by the tick, and `LastUsed` of the root reports 4. -/
 example :
     let s := run (init 5) [.newChild 0 9, .use 1 3, .use 1 3, .use 0 1, .tick]
-    s.answered = [(1, .ok), (2, .ok), (0, .ok)] ∧ s.last 0 = 4 ∧ s.used 0 = 3 ∧ s.waiting.length = 0 := by
+    s.answered = [(1, .ok), (2, .ok), (0, .ok)] ∧ s.last 0 = 4 ∧ s.used 0 = 3 ∧ s.waiting.length = 0 ∧
+    s.setCaps = 0 := by
   decide
 
 end C16
